@@ -99,16 +99,6 @@ func VerifBodyRelease(br *BodyReader) {
 	bodyReaderPool.Put(br)
 }
 
-// VerifPushHead records, as ClientConn.Do does for a request it sends, whether the next outstanding request is a HEAD request.
-func VerifPushHead(c *ClientConn, head bool) { c.pushHead(head) }
-
-// VerifHeadsLen is the number of outstanding requests whose response header has not been read yet.
-func VerifHeadsLen(c *ClientConn) int {
-	c.headMux.Lock()
-	defer c.headMux.Unlock()
-	return len(c.heads)
-}
-
 // VerifBodyState is a read-only snapshot of the reader's fields.
 func (br *BodyReader) VerifBodyState() (index, left, nbuf int, closed bool) {
 	return br.index, br.left, len(br.buffers), br.closed
